@@ -88,14 +88,18 @@ ClausesIter(r, V, ra) ==
        Cl("result-and-evaluations-under-one-reading",
           Len(r.result) = Len(V) /\ \E b \in BOOLEAN : ResOk(r, V, ra, b) /\ EvOk(r, V, ra, b)) >>
 
-\* S->C records carry what the bounded machine reached for this table: result and evaluated sets per level
+\* S->C records carry what the bounded machine (which models the documented reading: the first schedule entry is
+\* compared with the plain evaluation at sub size 1) reached for this table: result and evaluated sets per level.
+\* Whenever the recorded call follows the documented reading it must coincide with the machine's final state.
 MachineEv(r) == [k \in 1 .. Len(r.m_evald) |-> { r.m_evald[k][q] + 1 : q \in DOMAIN r.m_evald[k] }]
 ClausesMachine(r) ==
     IF ~ r.has_m THEN << >>
-    ELSE << Cl("result-equals-machine-state", r.result = r.m_result),
-            Cl("evaluations-equal-machine-state",
-               \A k \in 1 .. Len(r.sched) :
-                  AskedAt(r, r.sched[k]) = IF k + 1 <= Len(r.m_evald) THEN MachineEv(r)[k + 1] ELSE {}) >>
+    ELSE LET documented == Len(r.result) = Len(r.v) /\ ResOk(r, r.v, r.ra, TRUE) /\ EvOk(r, r.v, r.ra, TRUE)
+         IN << Cl("result-equals-machine-state", documented => r.result = r.m_result),
+               Cl("evaluations-equal-machine-state",
+                  documented =>
+                    \A k \in 1 .. Len(r.sched) :
+                       AskedAt(r, r.sched[k]) = IF k + 1 <= Len(r.m_evald) THEN MachineEv(r)[k + 1] ELSE {}) >>
 
 ClausesIterate(r) ==
     IF ~ TableOk(r) THEN << Cl("record-well-formed", FALSE) >>
